@@ -218,6 +218,7 @@ func (e *env) judge(is *issuance) {
 				}
 			}
 			e.judgeUserinfo(is, stored)
+			e.judgeIntrospect(is, stored)
 		}
 	}
 
@@ -309,8 +310,15 @@ func (e *env) judgeJWTAccess(is *issuance) *vkit.AccessTok {
 	is.Observed["at"] = j.Claims
 	key := e.checkSignature(is, "at", j)
 
+	e.ownVerifyAT(is, tok, j)
+
 	// the library's own verifier over the published key set
 	func() {
+		if e.tl != nil && e.tl.isRetired(key.KID) {
+			// the issuance overlapped a rotation that retired the key it had read: nothing is said about such a token
+			e.res.Label("grey:lib-verify-skipped:key-retired-during-issuance")
+			return
+		}
 		defer e.recoverLib(is.Step + ": op.VerifyAccessToken")
 		v := op.NewAccessTokenVerifier(is.Issuer, e.keySet(is.Agent), op.WithSupportedAccessTokenSigningAlgorithms(key.Alg))
 		claims, err := op.VerifyAccessToken[*oidc.AccessTokenClaims](context.Background(), tok, v)
@@ -464,8 +472,10 @@ func (e *env) judgeIDToken(is *issuance) {
 		return
 	}
 	is.Observed["idt"] = j.Claims
-	alg := e.checkSignature(is, "idt", j).Alg
+	idtKey := e.checkSignature(is, "idt", j)
+	alg := idtKey.Alg
 	cl := is.Client
+	e.ownVerifyHint(is, tok, j)
 
 	// scopes the id token may draw user claims from
 	idtScopes := is.Granted
@@ -493,6 +503,10 @@ func (e *env) judgeIDToken(is *issuance) {
 
 	// the library's own verifier over the published key set
 	func() {
+		if e.tl != nil && e.tl.isRetired(idtKey.KID) {
+			e.res.Label("grey:lib-verify-skipped:key-retired-during-issuance")
+			return
+		}
 		defer e.recoverLib(is.Step + ": rp.VerifyTokens")
 		v := rp.NewIDTokenVerifier(is.Issuer, is.ClientID, e.keySet(is.Agent), rp.WithSupportedSigningAlgorithms(alg),
 			rp.WithNonce(func(context.Context) string { return is.Nonce }))
@@ -618,13 +632,11 @@ func (e *env) judgeIDToken(is *issuance) {
 
 // judgeUserinfo: the provider's own reader of access tokens (decrypt / verify + storage lookup) honours the fresh token.
 func (e *env) judgeUserinfo(is *issuance, stored *vkit.AccessTok) {
-	if j, err := parseJWT(is.Tokens.Access); err == nil {
-		if alg, _ := j.Header["alg"].(string); alg != e.c.Sign.Alg {
-			// the provider's own access-token verifier is configured (vkit.Build) for the algorithm of the first signing key only:
-			// that it refuses a token of the rolled-over algorithm is this configuration, not a property of the token
-			e.res.Label("grey:userinfo-skipped:alg-outside-op-verifier-config")
-			return
-		}
+	if ok, why := e.ownCovers(is.Tokens.Access); !ok {
+		// the provider's own access-token verifier accepts what the application configured (Case.OwnVerif; vkit.Build: the algorithm
+		// of the first signing key only): that it refuses a token of another algorithm is this configuration, not a property of the token
+		e.res.Label("grey:userinfo-skipped:" + why)
+		return
 	}
 	r := is.Agent.UserInfo(is.Tokens.Access)
 	if r.Panic != nil {
